@@ -2,6 +2,7 @@ package main
 
 import (
 	"fmt"
+	"os"
 	"sort"
 	"strings"
 
@@ -117,9 +118,44 @@ func refEvents(dump []interp.VerifC19Node, marks map[int]bool, cmds string, tape
 	return r.events
 }
 
-// ---- classes: decidable predicates of the input (program graph and its run) ----
+// ---- hypotheses of the tracking theorems, computed on the input (program graph and its run) ----
 
-// ambiguousBranch: some node has two different successors whose closures share their code.
+func idsOf(n interp.VerifC19Node) []uintptr {
+	if n.Code == 0 {
+		return nil // no closure generated (yet)
+	}
+	ids := []uintptr{n.Clo}
+	if n.Forward != 0 {
+		ids = append(ids, n.Forward)
+	}
+	return ids
+}
+
+// sharedClosure: some node has two different successors that are represented by one closure object
+// (idSeparates of the model fails). Closures made by a generator, and forwarding closures, are objects of
+// their own: this is expected never to hold.
+func sharedClosure(dump []interp.VerifC19Node) bool {
+	for _, n := range dump {
+		if n.Tnext >= 0 && n.Fnext >= 0 && n.Tnext != n.Fnext {
+			for _, a := range idsOf(dump[n.Tnext]) {
+				for _, b := range idsOf(dump[n.Fnext]) {
+					if a == b {
+						if os.Getenv("C19_DEBUG") != "" {
+							t, f := dump[n.Tnext], dump[n.Fnext]
+							fmt.Fprintf(os.Stderr, "SHARED: %s/%s L%d -> %d %s/%s L%d clo=%x fwd=%x | %d %s/%s L%d clo=%x fwd=%x\n", n.Kind, n.Action, n.Line,
+								n.Tnext, t.Kind, t.Action, t.Line, t.Clo, t.Forward, n.Fnext, f.Kind, f.Action, f.Line, f.Clo, f.Forward)
+						}
+						return true
+					}
+				}
+			}
+		}
+	}
+	return false
+}
+
+// ambiguousBranch: some node has two different successors whose closures share their code (the domain
+// restriction of the code before d1e6c4c; now only a coverage bucket).
 func ambiguousBranch(dump []interp.VerifC19Node) bool {
 	for _, n := range dump {
 		if n.Tnext >= 0 && n.Fnext >= 0 && n.Tnext != n.Fnext {
@@ -132,9 +168,10 @@ func ambiguousBranch(dump []interp.VerifC19Node) bool {
 	return false
 }
 
-// followsEdges: "ok", "tramp" (a forwarding closure of setExec is executed: a back edge of the graph is taken)
-// or "nonedge" (a closure hands over to something that is not its node's tnext or fnext).
-func followsEdges(dump []interp.VerifC19Node, tape []itemT) string {
+// followsEdges: "ok", "unrecorded" (a back edge is taken through a forwarding closure that is not recorded on
+// its node) or "nonedge" (a closure hands over to something that is not its node's tnext or fnext).
+// forwards counts the hand-overs through forwarding closures.
+func followsEdges(dump []interp.VerifC19Node, tape []itemT) (res string, forwards int) {
 	var stack []int
 	for _, it := range tape {
 		switch it.Kind {
@@ -144,37 +181,42 @@ func followsEdges(dump []interp.VerifC19Node, tape []itemT) string {
 			}
 		case 'n':
 			if len(stack) == 0 {
-				return "nonedge"
-			}
-			if it.Tramp {
-				return "tramp"
+				return "nonedge", forwards
 			}
 			top := dump[stack[len(stack)-1]]
 			if dump[it.Node].Code == 0 || (top.Tnext != it.Node && top.Fnext != it.Node) {
-				return "nonedge"
+				return "nonedge", forwards
+			}
+			if it.Tramp {
+				forwards++
+				if dump[it.Node].Forward == 0 {
+					return "unrecorded", forwards
+				}
 			}
 			stack[len(stack)-1] = it.Node
 		case 'z':
 			if len(stack) == 0 {
-				return "ok"
+				return "ok", forwards
 			}
 			stack = stack[:len(stack)-1]
 		case 'p':
-			return "ok"
+			return "ok", forwards
 		}
 	}
-	return "ok"
+	return "ok", forwards
 }
 
+// classOf: "" when the hypotheses of breakpoints_reported_in_order hold on this input. None of the other
+// labels is a listed class: a difference from the reference debugger there is a VIOLATION too.
 func classOf(dump []interp.VerifC19Node, tape []itemT) string {
-	switch followsEdges(dump, tape) {
-	case "tramp":
-		return "back-edge-forwarding"
+	switch r, _ := followsEdges(dump, tape); r {
+	case "unrecorded":
+		return "unrecorded-forwarding-closure"
 	case "nonedge":
 		return "non-edge-successor"
 	}
-	if ambiguousBranch(dump) {
-		return "code-ambiguous-branch"
+	if sharedClosure(dump) {
+		return "shared-closure-object"
 	}
 	return ""
 }
@@ -200,7 +242,7 @@ func protocolLine(dump []interp.VerifC19Node, tramp uintptr, bps []bpT, cmds str
 		if n.Func != "" {
 			fn = common.Q(n.Func)
 		}
-		fmt.Fprintf(&b, " (%d %s %s %d %s %s %s (%s) %s %s)", n.Code, optIdx(n.Tnext), optIdx(n.Fnext), n.Line,
+		fmt.Fprintf(&b, " (%d %d %d %s %s %d %s %s %s (%s) %s %s)", n.Code, n.Clo, n.Forward, optIdx(n.Tnext), optIdx(n.Fnext), n.Line,
 			common.B(n.PosValid), common.B(n.Action == "nop"), optIdx(n.Parent), strings.Join(ch, " "), fn, optIdx(n.Start))
 	}
 	fmt.Fprintf(&b, ") %d (b", tramp)
